@@ -122,6 +122,8 @@ func refCountsMap(bits []string, s, e int32, m0 int32, n int) []int32 {
 
 var c16Ms = []int32{1, 2, 4, 7, 10, 17}
 
+var c16Bystander = []string{"", "\x00\x00", "x", "x\x80", "yz"}
+
 // c16KeyFamilies returns the suffix-key universes and stems per tier.
 type c16Family struct {
 	name    string
@@ -360,6 +362,8 @@ func c16Run(c *mc.Ctx) {
 				return
 			}
 			sb := sigbits.New(keys)
+			// bystander: another SigBits built afterwards must not influence this one
+			_ = sigbits.New(c16Bystander)
 			for s := int32(0); s+2 <= n; s++ {
 				for e := s + 2; e <= n; e++ {
 					m0, cnt := refCounts(bits, keys, s, e, 17)
